@@ -237,7 +237,7 @@ theorem typeddec_null (t : GoType) (cur : DV) (d : DState) (hp : t.isPtr = false
   simp [TDec.literalStore, nullLiteral, ascii, hp]
   split <;> rfl
 
-/-! ### no panic, fuel suffices (OPEN beyond the library's own target shapes) -/
+/-! ### no panic, fuel suffices (beyond the library's own target shapes: `C17typeddecNP.lean`) -/
 
 /-- the field a `typeFields` index path ends at -/
 def lastField : GoType → List Nat → Option (FieldInfo × GoType)
@@ -270,9 +270,10 @@ def decodableF : List (FieldInfo × GoType) → Bool
   | (_, t) :: r => decodable t && decodableF r
 end
 
-/-- OPEN: on every well-formed text and every decodable type the decoder returns (no phase panic, no reflect
-panic, the fuel of the model suffices).  Proved for the library's own target shapes
-(`typeddec_no_panic_untyped`); on all types it is tested by the stream `typeddec` only. -/
+/-- On every well-formed text and every decodable type the decoder returns (no phase panic, no reflect
+panic, the fuel of the model suffices).  Proved here for the library's own target shapes
+(`typeddec_no_panic_untyped`) and on ALL types in `JP/Props/C17typeddecNP.lean`
+(`typeddec_no_panic_no_fuel`, `typeddec_no_panic_no_fuel_goal`). -/
 def typeddec_no_panic_no_fuelGoal : Prop :=
   ∀ (t : GoType) (text : Bytes) (c : Cst), t.wf = true → decodable t = true → parseCst text = some c →
     ∃ v e, unmarshalTyped t text = .ok (v, e)
